@@ -50,6 +50,9 @@ func (p FullIntraRequest) Marshal() ([]byte, error) {
 
 // Unmarshal decodes the TransportLayerNack
 func (p *FullIntraRequest) Unmarshal(rawPacket []byte) error {
+	// Clear any existing entries
+	p.FIR = nil
+
 	if len(rawPacket) < (headerLength + ssrcLength) {
 		return errPacketTooShort
 	}
